@@ -10,6 +10,16 @@ BLOCK_HINT = {0x12: 505, 0x13: 500, 0x20: 160, 0x21: 2, 0x22: 160, 0x23: 160, 0x
               0x40: 50, 0x41: 50, 0x42: 50, 0x70: 4096, 0x71: 4096, 0x72: 4096, 0x73: 4096}
 
 
+SAMPLE_BYTES = {0x01: 1, 0x05: 1, 0x02: 2, 0x03: 3, 0x04: 4, 0x06: 4, 0x07: 8, 0x10: 1, 0x11: 1}
+
+
+def raw_bw(fmt, ch):
+    """bytes per frame for sf_read_raw on sample-granular encodings, else None (PAF 24-bit and SDS pack samples; XI is DPCM)"""
+    if not fmt.granular or fmt.codec not in SAMPLE_BYTES or fmt.major in (0x11, 0x0F) or (fmt.major == 0x05 and fmt.codec == 0x03):
+        return None
+    return SAMPLE_BYTES[fmt.codec] * ch
+
+
 def block_hint(fmt):
     b = BLOCK_HINT.get(fmt.codec, 1)
     if fmt.major == 0x11:      # SDS: 60/40/30 samples per block
@@ -129,6 +139,16 @@ def test_phase(rng, fmt, ch, F, filehex, nops, sr=8000, raw_fmt=None):
                 lines.append("seek h0 0 1")
                 k += 2
             continue
+        bw = raw_bw(fmt, ch)
+        if bw and r < 0.1:
+            # sf_read_raw: whole frames (and, rarely, a byte count that is not a whole number of frames: must be refused)
+            n = rng.choice([1, 2, 3, 7, 33, max(F, 1), F + 2])
+            cnt = n * bw + (1 if (rng.random() < 0.1 and bw > 1) else 0)
+            lines.append("rraw h0 %d" % cnt)
+            if cnt % bw == 0:
+                pos = min(F, pos + n)
+            lines.append("seek h0 0 1")
+            continue
         if r < 0.55:
             ty = rng.choice(TYS)
             unit = rng.choice("if")
@@ -158,10 +178,12 @@ def test_phase(rng, fmt, ch, F, filehex, nops, sr=8000, raw_fmt=None):
     return "\n".join(lines) + "\n"
 
 
-def check_test_phase(script, lines, ch, F, ref, seekable=True):
+def check_test_phase(script, lines, ch, F, ref, seekable=True, bw=None, filehex=None):
     """returns list of (line index, text) problems"""
     sl = script.strip().split("\n")
     chk = abscheck.ReadChecker(ch, F, ref)
+    chk.bw = bw
+    chk.filebytes = bytes.fromhex(filehex) if filehex else None
     probs = []
     if len(lines) < len(sl):
         last = lines[-1] if lines else ""
